@@ -106,7 +106,8 @@ def oracle_(case):
             return False, f"S-norm {name}({a},{b}) = {v!r} below max"
         if name in DUAL and not fragile(a, b):
             d = 1.0 - impl(DUAL[name], 1.0 - a, 1.0 - b)
-            if (1.0 - a) + a == 1.0 and (1.0 - b) + b == 1.0 and not C.close(d, doc, atol=1e-9):
+            # only where the complements 1-a, 1-b are exact in float (a tiny degree is absorbed: 1 - 1e-200 == 1.0)
+            if Fr(1.0 - a) == 1 - Fr(a) and Fr(1.0 - b) == 1 - Fr(b) and not C.close(d, doc, atol=1e-9):
                 return False, f"duality: {name}({a},{b}) documented {float(doc)!r} but 1 - {DUAL[name]}(1-a,1-b) = {d!r}"
     # elementwise on arrays
     n = norms_cache()[name]
@@ -128,6 +129,17 @@ def oracle_(case):
         return False, f"{name}(column, row) = {outer!r} differs from element-by-element {exp_o!r}"
     if arr.shape != (3,) or not all(C.close(x, Fr(y) if math.isfinite(y) else C.cls_of(y), atol=0, rtol=0) for x, y in zip(arr, exp)):
         return False, f"{name} on arrays {arr!r} differs from element-by-element {exp!r}"
+    # operands held in reduced precision (float32 / float16 arrays of exactly representable degrees): the degrees are the
+    # same numbers, so the result is the same as for float64 operands
+    if 0 <= a <= 1 and 0 <= b <= 1:
+        for dt in (np.float32, np.float16):
+            if float(dt(a)) != a or float(dt(b)) != b:
+                continue
+            with np.errstate(all="ignore"):
+                low = np.asarray(n.compute(np.array([a, b, a], dtype=dt), np.array([b, a, a], dtype=dt)), dtype=float)
+            if low.shape != (3,) or not all((x != x and y != y) or abs(x - y) <= 1e-9 * (1 + abs(y)) for x, y in zip(low, exp)):
+                return False, (f"{name} on {dt.__name__} arrays of the degrees ({a}, {b}) gives {low!r}, on the same degrees as "
+                               f"float64 {exp!r}")
     return True, "ok"
 
 
@@ -153,6 +165,13 @@ def cases(ctx):
                 ctx.stats.skipped_fragile += 1
                 continue
             yield name, a, b, "random"
+    # very small positive degrees (tails of Gaussian terms): products underflow, the degrees themselves are not zero
+    tiny = [2.0 ** -540, 2.0 ** -1000, 5e-324, 1e-200, 2.0 ** -30]
+    for name in names:
+        for a in tiny:
+            for b in tiny + [0.0, 0.25, 1.0]:
+                yield name, a, b, "tiny"
+                yield name, b, a, "tiny"
     special = [math.nan, math.inf, -math.inf, -1.5, -0.5, 0.0, 0.25, 0.5, 1.0, 1.5, 2.0, 3.0]
     for name in names:
         for a in special:
